@@ -33,7 +33,7 @@ class Gen:
         self.f = dict(DEFAULT_FEATURES)
         if features:
             self.f.update(features)
-        self.n = n_passages or rng.randint(2, 6)
+        self.n = n_passages or rng.randint(3, 6)
         self.max_depth = max_depth
         self.names = ["Start"] + [f"P{i}" for i in range(1, self.n)]
         self.hook_names = []
@@ -240,12 +240,13 @@ class Gen:
 
     def target(self, cur_idx, forward_only):
         r = self.r
+        # the start passage initialises every variable, so it is entered once only (by the constructor)
         if forward_only:
             cands = [n for i, n in enumerate(self.names) if i > cur_idx]
             if not cands:
                 return None
             return r.choice(cands)
-        return r.choice(self.names)
+        return r.choice(self.names[1:])
 
     def choice(self, cur_idx, ints=None, in_block=False, join=False):
         r = self.r
@@ -352,6 +353,9 @@ class Gen:
                 f"d = {{'k': {r.randint(0, 5)}, 'm': {r.randint(0, 5)}}}", "hlog = []"]]
             items += [{"k": "stmt", "code": f"n_{n} = 0", "comment": None} for n in self.names + self.hook_names]
         items.append({"k": "stmt", "code": f"n_{name} = n_{name} + 1", "comment": None})
+        saved_sf = self.f["stmt_faults"]
+        if idx == 0:
+            self.f["stmt_faults"] = saved_sf / 8
         for _ in range(r.randint(1, 5)):
             k = r.random()
             if k < 0.32:
@@ -376,6 +380,7 @@ class Gen:
                 items.append({"k": "comment", "text": self.word()})
             else:
                 items.append(self.line(ints))
+        self.f["stmt_faults"] = saved_sf
         # choices / join structure
         if self.p("join") and not params:
             self.count("join_passage")
